@@ -174,7 +174,11 @@ func (p *Processor) ChargingDataCreate(
 
 	consumerId := chargingData.NfConsumerIdentification.NFName
 	if !chargingData.OneTimeEvent {
-		chargingSessionId = ueId + consumerId + strconv.Itoa(int(self.LocalRecordSequenceNumber))
+		// the sequence number is shared by all subscribers: read it under the context lock
+		self.Lock()
+		seq := self.LocalRecordSequenceNumber
+		self.Unlock()
+		chargingSessionId = ueId + consumerId + strconv.Itoa(int(seq))
 	}
 	cdr, err := p.OpenCDR(chargingData, ue, chargingSessionId, false)
 	if err != nil {
